@@ -77,6 +77,8 @@ void ParseArgs(int argc, char *argv[], Options &out) {
     UTIL_THROW_IF2(vm.count("prefix"), "Specify --prefix or --output");
     UTIL_THROW_IF2(vm.count("number") && number != out.outputs.size(), "Number of outputs does not match");
   }
+  // The shard index is a hash modulo the number of outputs.
+  UTIL_THROW_IF2(out.outputs.empty(), "At least one output is required (--number 0?)");
   if (compression_string == "none") {
     out.compression = util::WriteCompressed::NONE;
   } else if (compression_string == "gzip") {
